@@ -434,6 +434,42 @@ impl World for C04 {
             }
             pm.freeze()
         });
+        // 3b. Host-side attacks through the Rust value API (set_at / set_attr on frozen values).
+        if o.violation.is_none() {
+            for n in &names {
+                if let Ok(h) = fm.get_owned(n) {
+                    let mut bad: Option<String> = None;
+                    Module::with_temp_heap(|m| {
+                        let heap = m.heap();
+                        let v = h.add_to_heap(heap);
+                        let ty = v.get_type();
+                        if ty == "list" || ty == "dict" || ty == "tuple" {
+                            o.bump("fault.host_api_mutation_attempt", 2);
+                            if v.set_at(heap.alloc(0), heap.alloc(1)).is_ok() {
+                                bad = Some(format!("Value::set_at on frozen {ty} export `{n}` succeeded"));
+                            }
+                            if v.set_at(heap.alloc("hk"), heap.alloc(1)).is_ok() {
+                                bad = Some(format!("Value::set_at(\"hk\") on frozen {ty} export `{n}` succeeded"));
+                            }
+                        }
+                        if ty == "struct" || ty == "record" {
+                            o.bump("fault.host_api_mutation_attempt", 1);
+                            if v.set_attr("a", heap.alloc(1)).is_ok() {
+                                bad = Some(format!("Value::set_attr on frozen {ty} export `{n}` succeeded"));
+                            }
+                        }
+                    });
+                    if let Some(b) = bad {
+                        o.violate("frozen-value-mutated", "mutable/host-api", b);
+                        break;
+                    }
+                }
+            }
+            let now = observe_frozen(&fm, "exp", &pure1);
+            if let Some(d) = kit::diff_transcripts(&reference, &now.lines) {
+                o.violate("frozen-value-changed", "changed/host-api", format!("after host API attacks: {d}"));
+            }
+        }
         // 4. Second level: attack through a re-export of a frozen importer.
         if o.violation.is_none() && case["second_level"].as_bool().unwrap_or(false) {
             if let Ok(fm2) = persistent_result {
